@@ -51,11 +51,31 @@ def _iter_pre(ctx):
     return SKIP
 
 
+def _raw_of(wav):
+    """the bytes of the recording as they are now (in memory, or in the file a QueryWav reads)"""
+    if hasattr(wav, "frames"):
+        return bytes(wav.frames)
+    smp = _samples_of(wav)
+    return W.encode(smp, wav.sampleWidth) if smp is not None else None
+
+
 def _samples_of(wav):
     if hasattr(wav, "frames") and len(wav.frames) > 40000:
         return None
     if hasattr(wav, "frames"):
         return W.decode(bytes(wav.frames), wav.sampleWidth)
+    af = getattr(wav, "audiofile", None)  # a QueryWav: the recording stays in its file
+    if af is not None:
+        try:
+            if af.getnframes() * af.getsampwidth() > 40000 or af.getnchannels() != 1:
+                return None
+            pos = af.tell()
+            af.setpos(0)
+            raw = af.readframes(af.getnframes())
+            af.setpos(pos)
+            return W.decode(raw, af.getsampwidth())
+        except Exception:
+            return None
     return None
 
 
@@ -82,7 +102,7 @@ def _zc_pre(ctx):
     outer = not _budget["active"]
     if outer:
         _budget.update(active=True, count=0, limit=2 * (math.ceil(dur / step) + 3))
-    return (samples, rate, t, step, outer, bytes(wav.frames))
+    return (samples, rate, t, step, outer, _raw_of(wav))
 
 
 def _zc_post(ctx):
@@ -112,7 +132,7 @@ def _zc_post(ctx):
     sig = ("zc", wclass, ctx.self_.sampleWidth, float(sps) if sps < 20 else 20, "0" if t == 0 else ("end" if t == dur else ("grid" if on_grid else "off")),
            type(ctx.exc).__name__ if ctx.exc else "ret")
     REC.outcome("zc", ctx.exc)
-    if bytes(ctx.self_.frames) != frames:
+    if _raw_of(ctx.self_) != frames:
         REC.violation(PROP, "zc", "findNearestZeroCrossing", case, "the search changed the recording", sig, mech)
         return
     if isinstance(ctx.exc, StepBudgetExceeded):
@@ -305,6 +325,18 @@ def _sp_post(ctx):
             if got_before != before:
                 REC.violation(PROP, "splice", "audioSplice", case, "tier %r: entries that ended before the insertion point changed: %r -> %r" % (ts["name"], before, got_before), sig, mech)
                 return
+        if align and stop is None:
+            # with alignment the insertion point moves to a zero crossing, so "before" and "later" are known only afterwards; but
+            # nothing is replaced: every entry of every tier is either before or later, and both kinds keep their label and order
+            src_labels = [e[-1] for e in ts["entries"]]
+            got_labels = [e[-1] for e in tr["entries"]]
+            if ts["name"] == tierName:
+                got_labels = [l for l in got_labels if l != label] if label not in src_labels else got_labels
+            if ts["t"] == "P":
+                src_labels, got_labels = sorted(src_labels), sorted(got_labels)  # (a point moved onto the crossing may pass another one)
+            if (got_labels != src_labels) if ts["name"] != tierName or label not in src_labels else (len(got_labels) != len(src_labels) + 1):
+                REC.violation(PROP, "splice", "audioSplice", case, "tier %r: labels %r after an insertion that replaces nothing, the source had %r (every entry keeps its label)" % (ts["name"], [e[-1] for e in tr["entries"]], src_labels), sig, mech)
+                return
         hi = stop if stop is not None else start
         # points exactly on the edge of a replaced region are erased with it (C07: a <= t <= b)
         later = [e[-1] for e in ts["entries"] if (e[0] >= hi if ts["t"] == "I" else e[0] > hi) and e[-1] != label] if not align else []
@@ -407,6 +439,20 @@ def _workload(tier, rng, shard, nshards, work=None):
         for _ in range(4):
             guarded(wav.findNearestZeroCrossing, rng.uniform(0, n / rate), rng.choice(steps))
         guarded(wav.findNearestZeroCrossing, rng.randrange(0, n + 1) / rate, rng.choice([1 / rate, 1.5 / rate, 0.5 / rate]))
+        if work is not None and k % 3 == 0:
+            # the same recording queried through its file (QueryWav never loads it): same questions, same kind of answers
+            import os
+
+            qfn = os.path.join(str(work), "zc_query.wav")
+            with core.paused():
+                wav.save(qfn)
+            q = audio.QueryWav(qfn)
+            q._vmon_wave = wav._vmon_wave
+            REC.cls("C18:file-backed-recording")
+            for i in range(0, n + 1, max(1, n // 12)):
+                guarded(q.findNearestZeroCrossing, i / rate, rng.choice(steps))
+            guarded(q.findNearestZeroCrossing, rng.uniform(0, n / rate), rng.choice(steps))
+            q.audiofile.close()
         # histories on ONE object: query, edit the recording in place without changing its length, ask the same question again
         wav._vmon_log = {"initial": list(samples), "events": []}
         for _h in range(3):
@@ -448,6 +494,15 @@ def _workload(tier, rng, shard, nshards, work=None):
         marks = [(p / rate, rng.choice(["m", "m", "n"]) if k % 2 else "m%d" % j) for j, p in enumerate(sorted(rng.sample(range(0, n + 1), rng.randrange(0, 6))))]
         tg.addTier(make_tier("P", "marks", marks, 0.0, dur if not (k % 4 == 3 and marks and tg.getTier("words").maxTimestamp < dur) else max(marks[-1][0], tg.getTier("words").maxTimestamp)), reportingMode="silence")
         guarded(praatio_scripts.tgBoundariesToZeroCrossings, tg.new(), wav, rng.random() < 0.8, rng.random() < 0.8)
+        if work is not None and k % 4 == 1:
+            import os
+
+            qfn = os.path.join(str(work), "tgz_query.wav")
+            with core.paused():
+                wav.save(qfn)
+            q = audio.QueryWav(qfn)  # the recording stays in its file
+            guarded(praatio_scripts.tgBoundariesToZeroCrossings, tg.new(), q, rng.random() < 0.8, rng.random() < 0.8)
+            q.audiofile.close()
         seg, _, _, _ = mk_wav(rng, rng.choice(("sine", "random", "sparse-zero")), n=rng.randrange(8, 60), width=wav.sampleWidth, rate=rate)
         start = rng.choice([0.0, dur, rng.randrange(0, n + 1) / rate, rng.choice(pts) / rate])
         stop = None
